@@ -36,14 +36,15 @@ structure Facts.Std (f : Facts) : Prop where
   reconnCancelFirst : f.reconnCancelFirst = true
   advanceDropsPending : f.advanceDropsPending = true
   advanceKeepsCancel : f.advanceKeepsCancel = true
+  cancelFirstWins : f.cancelFirstWins = true
 
 instance (f : Facts) : Decidable f.Std :=
   if h : f.creditZero = true ∧ f.creditAdd = .checked ∧ f.creditLe = true ∧ f.ackFileTest = true ∧ f.ackCap = true ∧
       f.ackStrict = true ∧ f.resumeCap = true ∧ f.reconnCancelFirst = true ∧ f.advanceDropsPending = true ∧
-      f.advanceKeepsCancel = true
+      f.advanceKeepsCancel = true ∧ f.cancelFirstWins = true
   then isTrue ⟨h.1, h.2.1, h.2.2.1, h.2.2.2.1, h.2.2.2.2.1, h.2.2.2.2.2.1, h.2.2.2.2.2.2.1, h.2.2.2.2.2.2.2.1,
-    h.2.2.2.2.2.2.2.2.1, h.2.2.2.2.2.2.2.2.2⟩
-  else isFalse fun g => h ⟨g.1, g.2, g.3, g.4, g.5, g.6, g.7, g.8, g.9, g.10⟩
+    h.2.2.2.2.2.2.2.2.1, h.2.2.2.2.2.2.2.2.2.1, h.2.2.2.2.2.2.2.2.2.2⟩
+  else isFalse fun g => h ⟨g.1, g.2, g.3, g.4, g.5, g.6, g.7, g.8, g.9, g.10, g.11⟩
 
 /-- `ReplayRing::covers` is C12's `ringCovers` on the chunk boundaries (while the newest chunk ends below 2^64). -/
 theorem covers_eq_ringCovers (f : Facts) (m : OvMode) (chunks : List Chunk) (off : Nat)
@@ -100,7 +101,7 @@ theorem sim_op {f : Facts} (hf : f.Std) (m : OvMode) (t : Condvar.NotifyTable) (
         all_goals (intros; omega)
     · simp [hfile, hp]
   | cancel r =>
-    simp only [ofCondvarOp, step, hp, if_false, Bool.false_eq_true, Condvar.applyOp, absSh]
+    simp only [ofCondvarOp, step, hp, if_false, Bool.false_eq_true, Condvar.applyOp, absSh, hf.cancelFirstWins, if_true]
     split <;> simp_all
   | advance fi =>
     simp [ofCondvarOp, step, hp, Condvar.applyOp, absSh, hf.advanceDropsPending, hf.advanceKeepsCancel]
